@@ -333,7 +333,9 @@ func c07units(tier string) []mc.Unit {
 	us = append(us, mc.Unit{Name: "unencodable", Serial: true, Weight: 50, Run: func(r *mc.Recorder) {
 		var n int64
 		t := deepCopyTable(codon.GetCodonTable(1))
-		bad := []string{"J", "B", "Z", "X", "O", "U", "a", "m", "l", "1", "-", " ", "?"}
+		// letters no table lists, a digit and a punctuation mark; lower-case spellings of encodable residues, blanks and
+		// gap characters are left out: an implementation may accept or skip them without contradicting the statement
+		bad := []string{"J", "B", "Z", "X", "O", "U", "1", "?", "j", "\u00e9"}
 		for _, b := range bad {
 			for pos := 0; pos <= 2; pos++ {
 				base := []string{"M", "K", "V"}
